@@ -38,8 +38,9 @@ def alphabet_size(cfg):
     return len(re.findall(r'"(?:[^"\\]|\\.)*"', body))
 
 
-def documents(ck, depth, laws=True, only=None, deep_more=False):
-    """All documents of <= depth lines over every alphabet."""
+def document_parts(ck, depth, laws=True, only=None, deep_more=False):
+    """All documents of <= depth lines over every alphabet, in parts (one part per round of parallel TLC processes, then the simulated
+    ones): the thorough tiers judge part by part so that two million documents are never held at once."""
     jobs = []
     for a in (only or ALPHABETS):
         cfg = 'BlockParse%s_%d.cfg' % (a, depth)
@@ -60,24 +61,38 @@ def documents(ck, depth, laws=True, only=None, deep_more=False):
     def one(job):
         cfg, shard = job
         return core.tlc('BlockParse', cfg, workers=1, env={'SHARD': shard, 'LAWS': 'on' if laws else 'off'}, timeout=3000, heap='2g')
-    with ThreadPoolExecutor(max_workers=core.NCPU) as ex:
-        results = list(ex.map(one, jobs))
-    docs, seen = [], set()
-    for r in results:
-        ck.add_tlc(r)
-        for d in r.printed_json():
-            if d['src'] in seen:
-                continue
-            seen.add(d['src'])
-            docs.append(d)
-    if len(docs) < (5000 if only is None else 500 * len(only)):
-        raise core.MachineryError('BlockParse.tla exported only %d documents' % len(docs))
-    ck.extra['blockparse_documents'] = len(docs)
+    seen = set()
+    n_docs = n_unsettled = 0
+    rounds = [jobs] if depth <= 3 else [jobs[a:a + core.NCPU] for a in range(0, len(jobs), core.NCPU)]
+    for batch in rounds:
+        with ThreadPoolExecutor(max_workers=core.NCPU) as ex:
+            results = list(ex.map(one, batch))
+        docs = []
+        for r in results:
+            ck.add_tlc(r)
+            for d in r.printed_json():
+                if d['src'] in seen:
+                    continue
+                seen.add(d['src'])
+                docs.append(d)
+        del results
+        n_docs += len(docs)
+        n_unsettled += len(docs) - len(settled(docs))
+        yield settled(docs)
+    if n_docs < (5000 if only is None else 500 * len(only)):
+        raise core.MachineryError('BlockParse.tla exported only %d documents' % n_docs)
+    ck.extra['blockparse_documents'] = n_docs
     ck.extra['blockparse_alphabets'] = len(only or ALPHABETS)
     if only is None:
-        docs = docs + [d for d in simulate(ck, 600 if depth <= 3 else 20000, laws=laws) if d['src'] not in seen]
-    ck.extra['blockparse_unsettled_documents_not_judged'] = len(docs) - len(settled(docs))
-    return settled(docs)
+        docs = [d for d in simulate(ck, 600 if depth <= 3 else 20000, laws=laws) if d['src'] not in seen]
+        n_unsettled += len(docs) - len(settled(docs))
+        yield settled(docs)
+    ck.extra['blockparse_unsettled_documents_not_judged'] = n_unsettled
+
+
+def documents(ck, depth, laws=True, only=None, deep_more=False):
+    """All documents of <= depth lines over every alphabet."""
+    return [d for part in document_parts(ck, depth, laws=laws, only=only, deep_more=deep_more) for d in part]
 
 
 def simulate(ck, num, depth=9, laws=True):
